@@ -457,6 +457,9 @@ func TestVerifC31Programs(t *testing.T) {
 	case "asan":
 		n = uint64(c.N(20_000, 300_000))
 	}
+	if o, err := strconv.ParseUint(os.Getenv("VERIF_C31_CASES"), 10, 64); err == nil && o > 0 {
+		n = o // manual smoke runs only; the driver never sets this
+	}
 	w := uint64(max(min(runtime.NumCPU(), 16)/g, 1))
 	dir := c.Scratch("workers")
 	defer os.RemoveAll(dir)
@@ -564,6 +567,9 @@ func TestVerifC31Programs(t *testing.T) {
 		cnt := total.OpOK[spec.Opcode]
 		if spec.SubOpcode != 0 {
 			cnt = total.SubOK[spec.SubOpcode]
+		}
+		if spec.Name == "err" { // never "succeeds": it is covered when executed
+			cnt = total.OpErr[spec.Opcode]
 		}
 		if cnt+total.OpErr[spec.Opcode] > 0 {
 			attempted++
